@@ -54,7 +54,7 @@ def run(ctx):
     ctx.rule("Q3", "SPI: count on clk_fall in RUN, MOSI shifted on fall, MISO on rise, cs from xfer_enable/cs_mode, done only in "
                    "IDLE; I2C: effective priority START > RESTART > WRITE > READ > STOP; bit counter 8 data bits + ack", min_sites=30)
     ctx.rule("Q4", "Timer: decrement under en & value != 0, reload at zero, load when disabled, latch on update; Watchdog: feed "
-                   "has priority, decrement saturates at 0, expiry flagged only while enabled", min_sites=11)
+                   "has priority, decrement saturates at 0, expiry flagged only while enabled; reset delay needs the effective enable", min_sites=13)
     ctx.rule("Q5", "per-frame FSM registers (bit counters, lengths) are re-initialised in the idle state, in a state every frame "
                    "crosses first, or on every exit of idle that leads to the counting state", min_sites=10)
     ctx.rule("PRIO", "no dead driver", min_sites=10)
@@ -103,7 +103,7 @@ def run(ctx):
         for reg in ("count", "data"):
             for a in fx.find(domain="sync", target=reg):
                 if a.state and a.state[1] == "RUN":
-                    ok = B.entails(a.eff(), B.A(tick))
+                    ok = q.IMP(a, B.A(tick))
                     ctx.ob("Q2", UART, cls, f"{reg} moves only on the baud tick", ok, "" if ok else f"{reg} <= {a.v} under {a.gtext()}", a.line)
         en = fx.find(domain="comb", target="self.clk_phase_accum.enable")
         ok = len(en) == 1 and en[0].state is not None and en[0].state[1] == "RUN" and en[0].v == "1"
@@ -120,20 +120,20 @@ def run(ctx):
     ctx.ob("Q2", UART, "RS232PHYTX", "line: idle level, start bit on valid, then data[0] (LSB first)", ok, "" if ok else f"{sorted(by)}")
     if ("IDLE", "RS232_START") in by:
         a = by[("IDLE", "RS232_START")]
-        ok = B.equivalent(a.eff(), B.A("self.sink.valid")) and tx.assigns.index(a) > tx.assigns.index(by[("IDLE", "RS232_IDLE")])
+        ok = q.EQ(a, B.A("self.sink.valid")) and tx.assigns.index(a) > tx.assigns.index(by[("IDLE", "RS232_IDLE")])
         ctx.ob("Q2", UART, "RS232PHYTX", "start bit overrides the idle level when a byte is offered", ok, "" if ok else f"{a.gtext()} / order")
     ld = [a for a in tx.find(domain="sync", target="data") if a.state and a.state[1] == "IDLE"]
-    ok = len(ld) == 1 and ld[0].v == "self.sink.data" and B.equivalent(ld[0].eff(), B.A("self.sink.valid"))
+    ok = len(ld) == 1 and ld[0].v == "self.sink.data" and q.EQ(ld[0], B.A("self.sink.valid"))
     ctx.ob("Q2", UART, "RS232PHYTX", "byte loaded when offered in IDLE", ok, "" if ok else f"{[(a.v, a.gtext()) for a in ld]}")
     rd = [a for a in tx.find(domain="comb", target="self.sink.ready")]
     txe = [t for t in tx.trans if t.src == "RUN"]
-    ok = len(rd) == 1 and rd[0].state[1] == "RUN" and len(txe) == 1 and B.equivalent(rd[0].eff(), txe[0].eff())
+    ok = len(rd) == 1 and rd[0].state[1] == "RUN" and len(txe) == 1 and q.EQ(rd[0], txe[0].eff())
     ctx.ob("Q2", UART, "RS232PHYTX", "byte consumed exactly at the end of its frame", ok, "" if ok else f"{[(a.state, a.gtext()) for a in rd]}")
     sh_rx = [a for a in rx.find(domain="sync", target="data") if a.state and a.state[1] == "RUN"]
     ok = len(sh_rx) == 1 and sh_rx[0].v == "Cat(data[1:], rx)"
     ctx.ob("Q2", UART, "RS232PHYRX", "RX shifts right (LSB arrives first), same direction as TX", ok, "" if ok else f"{[a.v for a in sh_rx]}")
     st = [t for t in rx.trans if t.src == "IDLE"]
-    ok = len(st) == 1 and st[0].dst == "RUN" and B.equivalent(st[0].eff(), B.from_expr("(rx == RS232_START) & (rx_d == RS232_IDLE)"))
+    ok = len(st) == 1 and st[0].dst == "RUN" and q.EQ(st[0], B.from_expr("(rx == RS232_START) & (rx_d == RS232_IDLE)"))
     ctx.ob("Q2", UART, "RS232PHYRX", "start = falling edge: rx == START & rx_d == IDLE", ok, "" if ok else f"{[t.gtext() for t in st]}")
     rxd = rx.find(domain="sync", target="rx_d")
     ok = len(rxd) == 1 and rxd[0].v == "rx" and not rxd[0].guards
@@ -143,11 +143,11 @@ def run(ctx):
     ctx.ob("Q2", UART, "RS232PHYRX", "pad synchronised before use", ok, "" if ok else f"{mr}")
     vd = rx.find(domain="comb", target="self.source.valid")
     rxe = [t for t in rx.trans if t.src == "RUN"]
-    ok = len(vd) == 1 and vd[0].v == "rx == RS232_STOP" and len(rxe) == 1 and B.equivalent(vd[0].eff(), rxe[0].eff())
+    ok = len(vd) == 1 and vd[0].v == "rx == RS232_STOP" and len(rxe) == 1 and q.EQ(vd[0], rxe[0].eff())
     ctx.ob("Q2", UART, "RS232PHYRX", "byte delivered only with a valid stop bit at the end of the frame", ok, "" if ok else f"{[(a.v, a.gtext()) for a in vd]}")
     acc = fx_of(ctx, UART, "RS232ClkPhaseAccum")
     aa = acc.find(domain="sync")
-    ok = len(aa) == 2 and all(a.t == "Cat(phase, self.tick)" for a in aa) and any(a.v == "phase + tuning_word" and B.equivalent(a.eff(), B.A("self.enable")) for a in aa)
+    ok = len(aa) == 2 and all(a.t == "Cat(phase, self.tick)" for a in aa) and any(a.v == "phase + tuning_word" and q.EQ(a, B.A("self.enable")) for a in aa)
     ctx.ob("Q2", UART, "RS232ClkPhaseAccum", "tick = carry of phase + tuning_word while enabled, reload otherwise", ok, "" if ok else f"{[(a.t, a.v, a.gtext()) for a in aa]}")
     rl = [a for a in aa if a.v != "phase + tuning_word"]
     ok = len(rl) == 1 and "2 ** 31" in rl[0].v and "mode == 'tx'" in rl[0].v
@@ -156,10 +156,10 @@ def run(ctx):
     # ================================================================ Q3 SPI master
     sp = fx_of(ctx, SPIM, "SPIMaster")
     cn = [a for a in sp.find(domain="sync", target="count") if a.v == "count + 1"]
-    ok = len(cn) == 1 and cn[0].state[1] == "RUN" and B.equivalent(cn[0].eff(), B.A("clk_fall"))
+    ok = len(cn) == 1 and cn[0].state[1] == "RUN" and q.EQ(cn[0], B.A("clk_fall"))
     ctx.ob("Q3", SPIM, "SPIMaster", "bit counter steps on clk_fall in RUN", ok, "" if ok else f"{[(a.state, a.gtext()) for a in cn]}")
     ex = [t for t in sp.trans if t.src == "RUN"]
-    ok = len(ex) == 1 and ex[0].dst == "STOP" and B.equivalent(ex[0].eff(), B.from_expr("clk_fall & (count == self.length - 1)"))
+    ok = len(ex) == 1 and ex[0].dst == "STOP" and q.EQ(ex[0], B.from_expr("clk_fall & (count == self.length - 1)"))
     ctx.ob("Q3", SPIM, "SPIMaster", "RUN ends after `length` clock pulses", ok, "" if ok else f"{[t.gtext() for t in ex]}")
     cz = [a for a in sp.find(domain="sync", target="count") if a.v == "0"]
     ok = any(a.state[1] == "START" and not a.guards for a in cz) and all(a.state[1] in ("START", "IDLE") for a in cz)
@@ -174,7 +174,7 @@ def run(ctx):
     ok = len(ms) == 1 and B.entails(q.gformula(sp, ms[0], inline=False), B.A("clk_fall"))
     ctx.ob("Q3", SPIM, "SPIMaster", "MOSI bit select counts down (MSB first) on clk_fall", ok, "" if ok else f"{[a.gtext() for a in ms]}")
     ml = [a for a in sp.find(domain="sync", target="mosi_sel") if a.v != "mosi_sel - 1"]
-    ok = len(ml) == 1 and "self.length - 1" in ml[0].v and "data_width - 1" in ml[0].v and B.equivalent(ml[0].eff(), B.A("mosi_latch"))
+    ok = len(ml) == 1 and "self.length - 1" in ml[0].v and "data_width - 1" in ml[0].v and q.EQ(ml[0], B.A("mosi_latch"))
     ctx.ob("Q3", SPIM, "SPIMaster", "MOSI starts at the most significant bit of the transfer", ok, "" if ok else f"{[a.v for a in ml]}")
     # the load wins over the free-running countdown in whatever divider phase the start request falls (effective guards)
     for a in ml + [x for x in sp.find(domain="sync", target="mosi_data")]:
@@ -184,7 +184,7 @@ def run(ctx):
                "" if ok else f"`{a.t} <= {short(a.v, 40)}` takes effect only under {B.show(eff)}: a start request that coincides with "
                              f"another strobe leaves a stale bit pointer / word and the frame is shifted out wrong", a.line)
     mi = sp.find(domain="sync", target="miso_data")
-    ok = len(mi) == 2 and all(B.entails(a.eff(), B.A("clk_rise")) for a in mi) and \
+    ok = len(mi) == 2 and all(q.IMP(a, B.A("clk_rise")) for a in mi) and \
         {a.v for a in mi} == {"Cat(pads.mosi, miso_data)", "Cat(pads.miso, miso_data)"}
     ctx.ob("Q3", SPIM, "SPIMaster", "MISO captured on the rising edge, shifting left (MSB first)", ok, "" if ok else f"{[(a.v, a.gtext()) for a in mi]}")
     cs = [a for a in sp.find(domain="sync") if a.t.startswith("pads.cs_n[")]
@@ -197,7 +197,7 @@ def run(ctx):
     ok = {a.state[1] for a in xe if a.state} == {"START", "RUN", "STOP"}
     ctx.ob("Q3", SPIM, "SPIMaster", "xfer_enable frames START..STOP", ok, "" if ok else f"{[(a.state, a.gtext()) for a in xe]}")
     lt = sp.find(domain="comb", target="miso_latch")
-    ok = len(lt) == 1 and lt[0].state[1] == "STOP" and B.equivalent(lt[0].eff(), B.A("clk_rise"))
+    ok = len(lt) == 1 and lt[0].state[1] == "STOP" and q.EQ(lt[0], B.A("clk_rise"))
     ctx.ob("Q3", SPIM, "SPIMaster", "received word latched at the end of STOP", ok, "" if ok else f"{[(a.state, a.gtext()) for a in lt]}")
     edges = {a.t: a.v for a in sp.find(domain="comb") if a.t in ("clk_rise", "clk_fall")}
     ok = edges == {"clk_rise": "clk_divider == self.clk_divider[1:] - 1", "clk_fall": "clk_divider == self.clk_divider - 1"}
@@ -205,10 +205,11 @@ def run(ctx):
     # SPI slave
     ss = fx_of(ctx, SPIS, "SPISlave")
     ed = {a.t: a.v for a in ss.find(domain="comb") if a.t in ("clk_rise", "clk_fall")}
-    ok = ed == {"clk_rise": "clk & ~clk_d", "clk_fall": "~clk & clk_d"}
+    ok = set(ed) == {"clk_rise", "clk_fall"} and B.equivalent(B.from_expr(ed["clk_rise"]), B.from_expr("clk & ~clk_d")) and \
+        B.equivalent(B.from_expr(ed["clk_fall"]), B.from_expr("~clk & clk_d"))
     ctx.ob("Q3", SPIS, "SPISlave", "edge detectors on the synchronised clock", ok, "" if ok else f"{ed}")
     mosi = ss.find(domain="sync", target="self.mosi")
-    ok = len(mosi) == 1 and mosi[0].v == "Cat(mosi, self.mosi[:-1])" and B.equivalent(mosi[0].eff(), B.from_expr("cs & clk_rise"))
+    ok = len(mosi) == 1 and mosi[0].v == "Cat(mosi, self.mosi[:-1])" and q.EQ(mosi[0], B.from_expr("cs & clk_rise"))
     ctx.ob("Q3", SPIS, "SPISlave", "MOSI sampled on the rising edge while selected", ok, "" if ok else f"{[(a.v, a.gtext()) for a in mosi]}")
     mis = [a for a in ss.find(domain="sync", target="miso_data") if a.v != "self.miso"]
     ok = len(mis) == 1 and B.entails(q.gformula(ss, mis[0], inline=False), B.from_expr("cs & clk_fall"))
@@ -254,7 +255,7 @@ def run(ctx):
             okk = B.equivalent(G, B.from_expr(want))
             ctx.ob("Q4", TIMER, "Timer", f"value <= {v} iff {want}", okk, "" if okk else f"under {B.show(G)}", by[v].line)
     lt = tm.find(domain="sync", target="self._value.status")
-    ok = len(lt) == 1 and lt[0].v == "value" and B.equivalent(lt[0].eff(), B.A("self._update_value.re"))
+    ok = len(lt) == 1 and lt[0].v == "value" and q.EQ(lt[0], B.A("self._update_value.re"))
     ctx.ob("Q4", TIMER, "Timer", "value latched on update_value write", ok, "" if ok else f"{[(a.v, a.gtext()) for a in lt]}")
     wd = fx_of(ctx, WDT, "Watchdog")
     fail_closed(ctx, wd, "Watchdog")
@@ -277,5 +278,20 @@ def run(ctx):
     ok = len(en) == 1 and B.equivalent(B.from_expr(en[0].value), B.from_expr("self._control.fields.enable & ~self.halted"))
     ctx.ob("Q4", WDT, "Watchdog", "enable = control.enable & ~halted", ok, "" if ok else f"{[a.v for a in en]}")
     tr = wd.find(domain="comb", target="self.ev.wdt.trigger")
-    ok = len(tr) == 1 and tr[0].v == "self.execute" and B.equivalent(tr[0].eff(), B.A("self.enable"))
+    ok = len(tr) == 1 and tr[0].v == "self.execute" and q.EQ(tr[0], B.A("self.enable"))
     ctx.ob("Q4", WDT, "Watchdog", "event raised from execute while enabled", ok, "" if ok else f"{[(a.v, a.gtext()) for a in tr]}")
+    # a paused (CPU halted) or disabled watchdog does nothing: every action -- count, event, reset delay -- needs the effective enable
+    rw = wd.find(domain="comb", target="self.reset_timer.wait")
+    ok = len(rw) == 1 and not rw[0].guards
+    if ok:
+        inl = q.Inliner(wd, rw[0])
+        F = inl.inline(B.from_expr(rw[0].value))
+        En = inl.inline(B.A("self.enable"))
+        F0 = B.from_expr(rw[0].value)
+        ok = B.entails(F, En) and B.depends_on(F0, "self.execute") and B.depends_on(F0, "self.reset_mode")
+    ctx.ob("Q4", WDT, "Watchdog", "reset delay runs only while effectively enabled (enable & ~halted), expired and in reset mode", ok,
+           "" if ok else f"reset_timer.wait = {rw[0].v if rw else '?'} does not entail control.enable & ~halted (or ignores execute / reset_mode): "
+                         f"a paused watchdog resets the SoC", rw[0].line if rw else 0)
+    cr = [a for a in wd.find(domain="comb") if a.t == "crg_rst"]
+    ok = len(cr) == 1 and cr[0].v == "1" and q.EQ(cr[0], B.A("self.reset_timer.done"))
+    ctx.ob("Q4", WDT, "Watchdog", "SoC reset only from the reset-delay timer", ok, "" if ok else f"{[(a.v, a.gtext()) for a in cr]}")
